@@ -313,6 +313,8 @@ class Series:
             if gd is None:
                 return NotImplemented
             cls, rel = gd
+            if rel == '<=':                       # the complement of `>`: same test, other branch
+                rel, truth = '>', not truth
             if rel != '>':
                 st = st.with_flag(f'capacity-test:{rel}')
                 return st
